@@ -71,3 +71,36 @@ fuzz_sub!(c13_fuzz, en13, "c13.fuzz_bytes", "parse_any");
 fuzz_sub!(c10_fuzz, en10, "c10.fuzz_bytes", "iso_roundtrip");
 fuzz_sub!(c11_fuzz, en11, "c11.fuzz_bytes", "duration_text");
 fuzz_sub!(c19_fuzz, en19, "c19.fuzz_bytes", "format_pair");
+
+// `<prop>.fuzz_cases`: seeds, regressions and artifacts of the structured target `prop_case` (the bytes are the
+// random stream of one of the property's strategies)
+macro_rules! fuzz_cases_sub {
+    ($fname:ident, $en:ident, $name:expr, $target:expr) => {
+        fn $en(_t: Tier, shard: usize, sink: &mut dyn FnMut(Bytes) -> bool) {
+            enumerate($target, shard, sink)
+        }
+        pub fn $fname() -> Box<dyn DynSub> {
+            sub(Sub { name: $name, source: Source::Enum($en, |_| false), oracle, known: no_known, hang_is_violation: false })
+        }
+    };
+}
+fuzz_cases_sub!(fc01, ec01, "c01.fuzz_cases", "prop_case_C01");
+fuzz_cases_sub!(fc02, ec02, "c02.fuzz_cases", "prop_case_C02");
+fuzz_cases_sub!(fc03, ec03, "c03.fuzz_cases", "prop_case_C03");
+fuzz_cases_sub!(fc04, ec04, "c04.fuzz_cases", "prop_case_C04");
+fuzz_cases_sub!(fc05, ec05, "c05.fuzz_cases", "prop_case_C05");
+fuzz_cases_sub!(fc06, ec06, "c06.fuzz_cases", "prop_case_C06");
+fuzz_cases_sub!(fc07, ec07, "c07.fuzz_cases", "prop_case_C07");
+fuzz_cases_sub!(fc08, ec08, "c08.fuzz_cases", "prop_case_C08");
+fuzz_cases_sub!(fc09, ec09, "c09.fuzz_cases", "prop_case_C09");
+fuzz_cases_sub!(fc10, ec10, "c10.fuzz_cases", "prop_case_C10");
+fuzz_cases_sub!(fc11, ec11, "c11.fuzz_cases", "prop_case_C11");
+fuzz_cases_sub!(fc12, ec12, "c12.fuzz_cases", "prop_case_C12");
+fuzz_cases_sub!(fc13, ec13, "c13.fuzz_cases", "prop_case_C13");
+fuzz_cases_sub!(fc14, ec14, "c14.fuzz_cases", "prop_case_C14");
+fuzz_cases_sub!(fc15, ec15, "c15.fuzz_cases", "prop_case_C15");
+fuzz_cases_sub!(fc16, ec16, "c16.fuzz_cases", "prop_case_C16");
+fuzz_cases_sub!(fc17, ec17, "c17.fuzz_cases", "prop_case_C17");
+fuzz_cases_sub!(fc18, ec18, "c18.fuzz_cases", "prop_case_C18");
+fuzz_cases_sub!(fc19, ec19, "c19.fuzz_cases", "prop_case_C19");
+fuzz_cases_sub!(fc20, ec20, "c20.fuzz_cases", "prop_case_C20");
